@@ -143,7 +143,7 @@ func (s *Solver) Discharge(ob *Obligation, query string) {
 	if ob.Cover {
 		// reachability (vacuity guard): the path must not be refutable. unsat = vacuous = failed;
 		// sat or unknown (quantifiers, no model-based instantiation) = not refuted.
-		res, _, el := runSolver(ctx, solvers[0], file, s.QuickS, s.Seed)
+		res, _, el := runSolver(ctx, solvers[0], file, 2, s.Seed)
 		record(res, solvers[0].Name, el)
 		ob.TimeS = el
 		ob.Solver = solvers[0].Name + "=" + res
@@ -212,8 +212,11 @@ func (s *Solver) Discharge(ob *Obligation, query string) {
 			return
 		}
 	}
-	ob.Status = "undecided"
 	var ag []string
+	if len(ob.split) > 0 && s.splitDischarge(ob) {
+		return
+	}
+	ob.Status = "undecided"
 	for _, x := range results {
 		ag = append(ag, x.solver+"="+x.res)
 		if x.res == "error" {
@@ -236,6 +239,20 @@ func (s *Solver) DischargeAll(obs []*Obligation, par int) {
 	queries := make([]string, len(obs))
 	for i, ob := range obs {
 		queries[i] = ob.vc.Query(ob)
+		if !ob.Cover {
+			choices := ob.vc.pathChoices(ob.PC, 24)
+			conj := splitConj(ob.Goal)
+			if choices == nil {
+				choices = []map[string]string{nil}
+			}
+			if len(choices) > 1 || len(conj) > 1 {
+				for _, c := range choices {
+					for _, g := range conj {
+						ob.split = append(ob.split, ob.vc.QueryGoal(ob, c, g))
+					}
+				}
+			}
+		}
 	}
 	var wg sync.WaitGroup
 	sem := make(chan struct{}, par)
@@ -250,4 +267,56 @@ func (s *Solver) DischargeAll(obs []*Obligation, par int) {
 		}()
 	}
 	wg.Wait()
+}
+
+// splitDischarge proves an obligation path by path (every join above it resolved to one incoming edge).
+func (s *Solver) splitDischarge(ob *Obligation) bool {
+	ctx := context.Background()
+	var total float64
+	used := map[string]bool{}
+	for i, q := range ob.split {
+		text := "(set-logic ALL)\n" + q
+		sum := sha256.Sum256([]byte(text))
+		h := hex.EncodeToString(sum[:])
+		file := filepath.Join(s.WorkDir, "q", h[:2], h+".smt2")
+		os.MkdirAll(filepath.Dir(file), 0o755)
+		os.WriteFile(file, []byte(text), 0o644)
+		ok := false
+		// race the solvers on this path
+		type r struct {
+			res, solver string
+			el          float64
+		}
+		cctx, cancel := context.WithCancel(ctx)
+		ch := make(chan r, len(solvers))
+		for _, sc := range solvers {
+			sc := sc
+			go func() {
+				res, _, el := runSolver(cctx, sc, file, s.TimeoutS, s.Seed)
+				ch <- r{res, sc.Name, el}
+			}()
+		}
+		for j := 0; j < len(solvers); j++ {
+			x := <-ch
+			if !ok && x.res == "unsat" {
+				ok = true
+				total += x.el
+				used[x.solver] = true
+				cancel()
+			}
+		}
+		cancel()
+		if !ok {
+			ob.Output += fmt.Sprintf("\npath %d/%d not discharged: %s", i+1, len(ob.split), file)
+			return false
+		}
+	}
+	var us []string
+	for u := range used {
+		us = append(us, u)
+	}
+	ob.Status = "discharged"
+	ob.Solver = fmt.Sprintf("%s(split into %d path/conjunct queries)", strings.Join(us, "+"), len(ob.split))
+	ob.TimeS = total
+	return true
 }
